@@ -15,7 +15,7 @@
 
   Shared with the Spec (`…_core_shared`): the SHA-256 message schedule loop `for i in 16..64` (literal
   transcription of FIPS W_t) = `Spec.Sha2.schedule256`; `rotate_right/rotate_left` are the machine rotations.
-  NOT shared, proved equal in Proofs/Sha2Compress: the 8-way unrolled/renamed SHA-256 rounds with
+  NOT shared, proved equal in Proofs/Sha2Compress.lean / Proofs/Sha2Compress512.lean: the 8-way unrolled/renamed SHA-256 rounds with
   `g ^ (e & (f ^ g))`, `(a & b) | (c & (a | b))`; the SHA-512 u64x2 pair-lane rounds with the sliding schedule.
 
   -- API:
@@ -24,12 +24,14 @@
   --   Cx.Impl.Sha2.sha224 / sha256 / sha384 / sha512 / sha512_224 / sha512_256 : Bytes → Bytes  (total form)
   --   block sizes: Sha256.BLOCK_BYTES = Sha224.BLOCK_BYTES = 64, Sha512/384/512_224/512_256 = 128
   --   digest sizes: OUTPUT_BITS / 8 = 28, 32, 48, 64, 28, 32
+  --   Cx.Impl.Sha2.fam256 A / fam512 A : Cx.HashProg.Family (for `runProg`)
   --   Cx.Impl.Sha2.Alg256 / Alg512 descriptors (`digest!` macro arguments) and `Ctx256.*` / `Ctx512.*` methods
 -/
 import CxVerif.Util.Bytes
 import CxVerif.Spec.Sha2
 import CxVerif.Impl.FixedBuffer
 import CxVerif.Impl.MdEngine
+import CxVerif.Impl.HashProg
 import CxVerif.Extracted.Sha2
 namespace Cx.Impl.Sha2
 open Cx Cx.Impl
@@ -589,5 +591,17 @@ def sha384 (m : Bytes) : Bytes := orEmpty (sha384? m)
 def sha512 (m : Bytes) : Bytes := orEmpty (sha512? m)
 def sha512_224 (m : Bytes) : Bytes := orEmpty (sha512_224? m)
 def sha512_256 (m : Bytes) : Bytes := orEmpty (sha512_256? m)
+
+/-! ### the context families as the op-history machine (`Cx.HashProg.runProg`) sees them -/
+
+open Cx.HashProg (Family) in
+def fam256 (A : Alg256) : Family Ctx256 :=
+  ⟨Ctx256.new A, Ctx256.update, Ctx256.update_mut, Ctx256.reset A,
+   Ctx256.finalize_reset A, Ctx256.finalize A⟩
+
+open Cx.HashProg (Family) in
+def fam512 (A : Alg512) : Family Ctx512 :=
+  ⟨Ctx512.new A, Ctx512.update, Ctx512.update_mut, Ctx512.reset A,
+   Ctx512.finalize_reset A, Ctx512.finalize A⟩
 
 end Cx.Impl.Sha2
